@@ -386,6 +386,12 @@ pub fn inputs_c05(r: &mut Rng, n: usize, _tier: &str, out: &mut dyn Write) {
                 let g = *r.pick(&["gpst", "qzsst", "gst", "bdt"]);
                 let gts = match g { "gpst" => "GPST", "qzsst" => "QZSST", "gst" => "GST", _ => "BDT" };
                 let t = ref_off(gts) - ref_off(a) + match r.below(4) { 0 => small_off(r), 1 => NPC - 1 - r.below(1000) as i128, _ => r.below(NPC as u64) as i128 };
+                if r.chance(1, 3) {
+                    // ... and the counter constructors (a third seeded change filed here left from_*_nanoseconds un-normalised)
+                    let v: u64 = match r.below(4) { 0 => NPC as u64 + r.below(3), 1 => r.next(), 2 => NPC as u64 - 1 - r.below(3), _ => r.below(NPC as u64) };
+                    writeln!(out, "ns_rt {} {}", g, v).unwrap();
+                    continue;
+                }
                 writeln!(out, "to_ns {} {}:{}", g, dstr(t), a).unwrap()
             }
             _ => writeln!(out, "to_dur_in {}:{} {}", dstr(e), a, b).unwrap(),
@@ -889,6 +895,20 @@ pub fn inputs_c17(r: &mut Rng, n: usize, _tier: &str, out: &mut dyn Write) {
 
 pub fn inputs_c12(r: &mut Rng, n: usize, _tier: &str, out: &mut dyn Write) {
     for k in 0..n {
+        if k % 25 == 24 {
+            // the trait entry points of the order, the three operands in (mostly) different scales and within seconds of
+            // each other (seeded change C12-9: an Ord::clamp override comparing the self-duration obtained for one bound with
+            // the other bound's duration)
+            let (sa, sb, sc) = (*r.pick(&NONDYN), *r.pick(&NONDYN), *r.pick(&NONDYN));
+            let sa = if r.chance(1, 2) { "UTC" } else { sa };
+            let inst = epoch_total(r, "TAI");
+            let near = |r: &mut Rng| -> i128 { match r.below(4) { 0 => 0, 1 => r.range_i64(-2, 2) as i128, 2 => small_off(r), _ => (r.range_i64(-40, 40) as i128) * SEC + r.below(SEC as u64) as i128 } };
+            let ea = s2e(&format!("{}:TAI", dstr(inst))).to_time_scale(s2ts(sa));
+            let eb = s2e(&format!("{}:TAI", dstr(inst + near(r)))).to_time_scale(s2ts(sb));
+            let ec = s2e(&format!("{}:TAI", dstr(inst + near(r)))).to_time_scale(s2ts(sc));
+            writeln!(out, "eordfns {} {} {}", e2s(ea), e2s(eb), e2s(ec)).unwrap();
+            continue;
+        }
         if k % 20 == 19 {
             // compare-after-arithmetic (seeded change C12-7: `epoch += Unit` leaving (c, one century of ns)): the result of
             // every stepping entry point against the freshly built epoch of the same parts, a neighbour, and its re-expression
@@ -1805,6 +1825,16 @@ pub fn exec(op: &str, a: &[&str]) -> Option<String> {
                 Ok(x) => format!("ok {} {}", e2s(x), e2s(y)),
                 Err(_) => format!("ok err {}", e2s(y)),
             })
+        }
+        // the std entry points of the order on epochs (Ord::min / max, core::cmp::min / max, Ord::clamp), which the inherent
+        // Epoch::min / max shadow in method-call syntax: (min, max, cmp::min, cmp::max, clamp, lo, hi)
+        "eordfns" => {
+            let (x, y, z) = (s2e(a[0]), s2e(a[1]), s2e(a[2]));
+            let (lo, hi) = if y.cmp(&z) == Ordering::Greater { (z, y) } else { (y, z) };
+            Some(format!(
+                "ok {} {} {} {} {} {} {}",
+                e2s(Ord::min(x, y)), e2s(Ord::max(x, y)), e2s(core::cmp::min(x, y)), e2s(core::cmp::max(x, y)), e2s(x.clamp(lo, hi)), e2s(lo), e2s(hi)
+            ))
         }
         "ecmp_via" => {
             // compare-after-arithmetic: x = E <how> B as the entry point leaves it; z = the freshly constructed epoch of the
